@@ -218,13 +218,15 @@ PROPS = {
         "gen_facts": [],
     },
     "C12": {
-        "level_text": "Round trip proved: every structured query written through the documented grammar (values in double quotes, one space between tokens; values holding anything but the double quote) parses back to exactly that query (parse_render, over the lexer quote automaton: Lemmas.Lexer split_fields, token_kv/kvv/search, tokenize_rendered). FULL on evaluation: match_spec (any-of within status/author/actor/participant/metadata, all-of for labels, titles and "
+        "level_text": "Round trip proved: every structured query written through the documented grammar (every value between quotes of the kind it does not hold, one space between tokens; values holding anything but both kinds of quote at once, which the grammar cannot express) parses back to exactly that query (parse_render, over the lexer quote automaton: Lemmas.Lexer split_fields, token_kv/kvv/search, tokenize_rendered). FULL on evaluation: match_spec (any-of within status/author/actor/participant/metadata, all-of for labels, titles and "
                       "across kinds, no:label), identity_match_ci, query_result/query_exact (the result is exactly the matching excerpts, each "
                       "once, sorted by the requested key and direction; the three comparators are strict weak orders) for unbounded "
                       "populations. Parser: total by construction (the model has no partial operation; the Go code's slices are guarded), "
-                      "rejections proved per class (two sorts, unknown qualifier/status/sort/no, edge colon, unmatched quote). PARTIAL: the "
-                      "render/parse round trip over the whole documented grammar is validated by the correspondence run (structured queries "
-                      "with quoted multi-word values, sub-qualifiers, both quote kinds), not proved; full-text matching is bleve's.",
+                      "rejections proved per class (two sorts, unknown qualifier/status/sort/no, edge colon, unmatched quote). The comparators "
+                      "are total on bugs with distinct ids (less_total) and the answer does not depend on the order in which the excerpt map is "
+                      "enumerated (query_deterministic). Unquoted one-word values and other spacings are validated by the correspondence run "
+                      "(structured queries with and without quotes, sub-qualifiers, both quote kinds, several separators), not proved; "
+                      "full-text matching is bleve's.",
         "level_note": "Trusted: Lean kernel, harness. unicode.IsSpace, strings.ToLower/TrimSpace are environment functions supplied per case as "
                       "tables by the harness (computed with the real functions). sort.Sort is assumed to sort under a strict weak order. "
                       "Observed and reproduced by the model, not classified as violations: `label::x` parses as label:x and `label:\"\"` as "
